@@ -77,7 +77,13 @@ def pre_checks(tier):
 def gen_plan(r, tier, index):
     vec = r.random() < 0.35
     n = r.choice([1, 2, 2, 3, 3, 4, 6])
-    items = [{"name": f"it{j}", "nconf": (r.choice([1, 2, 2, 3]) if vec else 0)} for j in range(n)]
+    # library keys are free-form strings: most runs use plain names, some use names with dots in them (one name being the
+    # dotted extension of another, a name that ends like a file suffix) - the cache files are named after the keys
+    if r.random() < 0.25:
+        names = r.sample(["cat", "cat.v2", "lig.1", "lig", "lig.10", "a.b.c", "x.out", "it0"], n)
+    else:
+        names = [f"it{j}" for j in range(n)]
+    items = [{"name": names[j], "nconf": (r.choice([1, 2, 2, 3, 3, 12]) if vec else 0)} for j in range(n)]
     dest_pre = []
     c = r.random()
     if c < 0.35:
@@ -367,7 +373,7 @@ def run_plan(plan, trace=False):
             unexpected = sorted(set(ex_keys) - set(expect_exec))
             if unexpected:
                 e = unexpected[0]
-                nm = e.split(".")[0] if vec else e
+                nm = e.rsplit(".", 1)[0] if vec else e
                 cause = "in-destination" if nm in model_dest else state.get(e, "not-in-source")
                 viol("executed-although-result-was-available", f"state={cause}", f"call #{ci} (tag {tag}): {unexpected} executed again; state of {e}: {cause}; cache={cache.get(e)}")
                 break
@@ -496,9 +502,9 @@ def shrink_candidates(plan):
             p["items"] = [it for it in p["items"] if it["name"] != nm]
             p["dest_pre"] = [k for k in p["dest_pre"] if k != nm]
             for c in p["calls"]:
-                c["outcomes"] = {k: v for k, v in c["outcomes"].items() if k.split(".")[0] != nm}
-                c["faults"] = {k: v for k, v in c["faults"].items() if k.split(".")[0] != nm}
-                c["cache_ops"] = [o for o in c["cache_ops"] if o["key"].split(".")[0] != nm]
+                c["outcomes"] = {k: v for k, v in c["outcomes"].items() if (k.rsplit(".", 1)[0] if plan["vectorised"] else k) != nm}
+                c["faults"] = {k: v for k, v in c["faults"].items() if (k.rsplit(".", 1)[0] if plan["vectorised"] else k) != nm}
+                c["cache_ops"] = [o for o in c["cache_ops"] if (o["key"].rsplit(".", 1)[0] if plan["vectorised"] else o["key"]) != nm]
             yield p
     for i, c in enumerate(calls):
         if c["interrupt"]:
@@ -527,7 +533,7 @@ def shrink_candidates(plan):
                 p = copy.deepcopy(plan)
                 p["items"][i]["nconf"] = 1
                 for c in p["calls"]:
-                    c["outcomes"] = {k: v for k, v in c["outcomes"].items() if not (k.split(".")[0] == it["name"] and k.split(".")[1] != "0")}
-                    c["faults"] = {k: v for k, v in c["faults"].items() if not (k.split(".")[0] == it["name"] and k.split(".")[1] != "0")}
-                    c["cache_ops"] = [o for o in c["cache_ops"] if not (o["key"].split(".")[0] == it["name"] and o["key"].split(".")[1] != "0")]
+                    c["outcomes"] = {k: v for k, v in c["outcomes"].items() if not (k.rsplit(".", 1)[0] == it["name"] and k.rsplit(".", 1)[1] != "0")}
+                    c["faults"] = {k: v for k, v in c["faults"].items() if not (k.rsplit(".", 1)[0] == it["name"] and k.rsplit(".", 1)[1] != "0")}
+                    c["cache_ops"] = [o for o in c["cache_ops"] if not (o["key"].rsplit(".", 1)[0] == it["name"] and o["key"].rsplit(".", 1)[1] != "0")]
                 yield p
